@@ -222,6 +222,14 @@ struct udp_run
 			rec.emit(e);
 			if (op != "open") { rops.erase(s); waitw_pending[s] = false; }
 		}
+		else if (op == "move")
+		{
+			// move construction (no operation outstanding): the new object takes over, the old one is destroyed
+			std::unique_ptr<udp::socket> n(new udp::socket(std::move(so)));
+			it->second = std::move(n);
+			json::object e; e["e"] = "Op"; e["op"] = "move"; e["s"] = s; e["t"] = t;
+			rec.emit(e);
+		}
 		else if (op == "sndbuf")
 		{
 			int n = int(geti(o, "n"));
